@@ -1157,6 +1157,21 @@ def fam_errors(g, prefix, n_random):
             add([["sub", g.combine_named(c, g.cold(items[:pos] + [e_(5)]), [g.cold([n_(7), n_(8), C_])]), NOREACT]])
             g.tag = 0
             add([["sub", g.combine_named(c, g.cold([n_(7), n_(8), C_]), [g.cold(items[:pos] + [e_(6)])]), NOREACT]])
+    # the error of a NON-first input, after other inputs have emitted: three hot inputs, every choice of the failing one;
+    # for amb every choice of the winner (its error must come through, the others' items must not)
+    for c in ("merge", "amb", "zip", "combine_latest", "concat"):
+        for wi, wn in enumerate(("a", "b", "c")):
+            others = [x for x in ("a", "b", "c") if x != wn]
+            g.tag = 0
+            add([["subject", nm, "plain"] for nm in ("a", "b", "c")] +
+                [["sub", g.combine_named(c, ["ref", "a"], [["ref", "b"], ["ref", "c"]]), NOREACT],
+                 ["hnext", wn, "1"], ["hnext", others[0], "100"], ["hnext", others[1], "200"], ["hnext", wn, "2"], ["herror", wn, "7"],
+                 ["hnext", others[0], "101"], ["hcomplete", others[0]]])
+    for c in ("take_until", "skip_until", "sample"):
+        add([["subject", "a", "plain"], ["subject", "b", "plain"], ["sub", [c, ["ref", "a"], ["ref", "b"]], NOREACT],
+             ["hnext", "a", "1"], ["herror", "b", "7"], ["hnext", "a", "2"], ["hcomplete", "a"]])
+        add([["subject", "a", "plain"], ["subject", "b", "plain"], ["sub", [c, ["ref", "a"], ["ref", "b"]], NOREACT],
+             ["hnext", "b", "1"], ["hnext", "a", "2"], ["herror", "a", "7"], ["hnext", "b", "3"]])
     # an attempt that fails AFTER its subscribe call returned (a hot input wins amb and fails later); the next attempt ends INSIDE
     # its subscribe call (the hot input is dead by then, the flaky input answers synchronously)
     for op in (["retry", "2"], ["retry", "3"], ["retry", "0"], ["retry_when", "tt"], ["retry_when", ["eq", "5"]], ["on_error_resume_next", "rs_same"]):
